@@ -3,6 +3,7 @@ import ArcSwapModel.KindsDriver
 import ArcSwapModel.AutoTraits
 import ArcSwapModel.SerdeM
 import ArcSwapModel.CacheM
+import ArcSwapModel.AccessM
 open M
 
 /-- `driver <exec-file>`: replays every execution of the file on `M`. -/
@@ -54,6 +55,11 @@ def main (args : List String) : IO UInt32 := do
       else if l == "endexec" then
         for o in CacheM.runLines a0 cur do IO.println o
         IO.println "endexec"
+    return 0
+  | ["access", path] =>
+    let text ← IO.FS.readFile path
+    for l in text.splitOn "\n" do
+      if l.startsWith "shape=" then IO.println (AccessM.predict l)
     return 0
   | ["autotraits"] =>
     for l in AutoTraits.tableLines do IO.println l
